@@ -36,7 +36,7 @@ var (
 
 // Commit stores the current contents of the index in a new commit along with
 // a log message from the user describing the changes.
-func (w *Worktree) Commit(msg string, opts *CommitOptions) (plumbing.Hash, error) {
+func (w *Worktree) Commit(msg string, opts *CommitOptions) (_ plumbing.Hash, retErr error) {
 	if trace.Performance.Enabled() {
 		start := time.Now()
 		defer func() {
@@ -49,6 +49,19 @@ func (w *Worktree) Commit(msg string, opts *CommitOptions) (plumbing.Hash, error
 	}
 
 	if opts.All {
+		// Like git commit -a, which stages into a temporary index: a commit
+		// that is refused leaves the index as it was.
+		idx, err := w.r.Storer.Index()
+		if err != nil {
+			return plumbing.ZeroHash, err
+		}
+		saved := copyIndexEntries(idx)
+		defer func() {
+			if retErr != nil {
+				_ = w.r.Storer.SetIndex(saved)
+			}
+		}()
+
 		if err := w.autoAddModifiedAndDeleted(); err != nil {
 			return plumbing.ZeroHash, err
 		}
@@ -200,6 +213,18 @@ func (w *Worktree) CherryPick(commitOpts *CommitOptions, ortStrategyOption OrtMe
 		}
 	}
 	return nil
+}
+
+// copyIndexEntries returns a copy of idx that shares no entry with it: the
+// storage may hand out the index it holds, and staging edits entries in place.
+func copyIndexEntries(idx *index.Index) *index.Index {
+	c := *idx
+	c.Entries = make([]*index.Entry, len(idx.Entries))
+	for i, e := range idx.Entries {
+		ce := *e
+		c.Entries[i] = &ce
+	}
+	return &c
 }
 
 func (w *Worktree) autoAddModifiedAndDeleted() error {
